@@ -279,6 +279,14 @@ def raw_reader_count(ctx, prog, rule, path="<pc_reader_raw::PointCloudReaderRaw<
             inner = t[2][0] if t[0] == "agg" and t[2] else None
             if inner is not None and inner[0] == "agg" and inner[1][0] == "adt" and inner[1][2] == "Ok":
                 yields.append((bi, si))
+    if not yields:
+        # `Some(self.helper())`: the Ok(point) is built first and wrapped later; the yield site is where the Ok is built
+        for n_, ds in f.defs().items():
+            for kind, payload, bi, si, place in ds:
+                if kind == "stmt" and not place["proj"] and bi in f.cfg() and is_variant_agg(payload, "result::Result", "Ok"):
+                    locs, _sinks = flows(f, n_)
+                    if 0 in locs:
+                        yields.append((bi, si))
     ctx.ob(rule, "yield-sites/%s" % short(f.path), len(yields) >= 1, "%d Some(Ok(point)) exits, %d increments of read" % (len(yields), len(incs)), nontrivial=False)
     other = cfg_without_edges(f, [(gb, more)])
     still = reach(other, [0])
